@@ -1,6 +1,8 @@
 package isobmff
 
 import (
+	"io"
+
 	"github.com/evanoberholster/imagemeta/meta"
 	"github.com/pkg/errors"
 	"github.com/rs/zerolog"
@@ -45,16 +47,26 @@ func (b *box) Discard(n int) (int, error) {
 	return 0, ErrRemainLengthInsufficient
 }
 
-// Read the bytes from underlying reader. Is limited by the
-// constrains of the box
+// Read reads from the underlying reader like any io.Reader: at most len(p)
+// bytes, never beyond the end of the box nor beyond the end of any enclosing
+// box, and io.EOF once the box is exhausted.
 func (b *box) Read(p []byte) (n int, err error) {
-	if b.remain >= len(p) {
-		//fmt.Println(b.remain)
-		n, err = b.reader.br.Read(p)
-		b.adjust(n)
-		return n, err
+	limit := b.remain
+	for o := b.outer; o != nil; o = o.outer {
+		if o.remain < limit {
+			limit = o.remain
+		}
 	}
-	return 0, ErrRemainLengthInsufficient
+	if limit <= 0 {
+		return 0, io.EOF
+	}
+	if len(p) > limit {
+		p = p[:limit]
+	}
+	n, err = b.reader.br.Read(p)
+	b.reader.offset += n
+	b.adjust(n)
+	return n, err
 }
 
 func (b *box) adjust(n int) {
